@@ -61,6 +61,8 @@ def run_unit(unit, variant=None, rlimit=None, seed=None, db=None):
         res.undecided.append('generator: %s' % e)
         return res
     res.info = info
+    for msg in info.get('unread', []):
+        res.undecided.append(msg)
     cmd = ['verus', path, '--output-json', '--time', '--error-format=json', '--multiple-errors', '200']
     if rlimit:
         cmd += ['--rlimit', str(rlimit)]
